@@ -35,7 +35,7 @@ class AmpOracle:
                   "rebinds_checked": 0}
 
     def _bad(self, kind, text):
-        if len(self.problems) < 6:
+        if sum(1 for k, _ in self.problems if k == kind) < 2:      # two per kind: no kind crowds out another
             self.problems.append((kind, text))
 
     # ------------------------------------------------------------ receiving
@@ -56,6 +56,10 @@ class AmpOracle:
 
     # -------------------------------------------------------------- sending
     def before_api(self, sim, ep, name, args, kw):
+        pend = getattr(self, "check_ledger_after_send", None)
+        if pend is not None:
+            self.check_ledger_after_send = None
+            self.check_ledger(sim, pend)
         if name == "connect":
             self.valid.add((ep.name, args[0]))   # the client chose this address
         if name == "datagrams_to_send":
@@ -107,12 +111,33 @@ class AmpOracle:
             self.n["unvalidated_sends"] += 1
             if to != S.CLIENT_ADDR:
                 self.n["rebinds_checked"] += 1
+            self.check_ledger_after_send = ep
             if self.sent[k] > 3 * self.recv.get(k, 0):
                 self._bad("amplification", f"{ep.name} has sent {self.sent[k]} bytes to unvalidated {to}, "
                                            f"received {self.recv.get(k, 0)} from it"
                                            + (" (CONNECTION_CLOSE)" if snap.get("closing") else ""))
 
+    def check_ledger(self, sim, ep):
+        """the endpoint's anti-amplification ledger against the datagrams actually exchanged with each
+        address: while a path is unvalidated it must not be charged less than was handed out for it,
+        nor credited more than arrived from it (the safe directions may differ: bytes received in a
+        terminal state or on a path object that was dropped are not credited)"""
+        for p in ep.conn._network_paths:
+            k = (ep.name, p.addr)
+            if k in self.valid or p.is_validated:
+                continue
+            self.n["ledger_checks"] = self.n.get("ledger_checks", 0) + 1
+            sent, recv = self.sent.get(k, 0), self.recv.get(k, 0)
+            if p.bytes_sent < sent:
+                self._bad("ledger", f"{ep.name} charged {p.bytes_sent} bytes to unvalidated {p.addr} but handed out "
+                                    f"{sent} bytes for it ({recv} received from it, limit {3 * recv})")
+            if p.bytes_received > recv:
+                self._bad("ledger", f"{ep.name} credits {p.bytes_received} bytes from unvalidated {p.addr} but only "
+                                    f"{recv} arrived from it")
+
     def after_api(self, sim, ep, name, args, kw, res):
+        if name == "receive_datagram":
+            self.check_ledger(sim, ep)
         if name != "datagrams_to_send" or ep.name not in self.call:
             return
         snap = self.call.pop(ep.name)
@@ -152,12 +177,19 @@ def spoofed_initial(sim, r):
     sim.deliver(d)
 
 
-def make_sim(seed, orc, zero_rtt=False, client_mds=1200, server_mds=1200, extra=()):
+def make_sim(seed, orc, zero_rtt=False, client_mds=1200, server_mds=1200, extra=(), chain="repo"):
     mons = [orc] + list(extra)
     co = {"max_datagram_size": client_mds}
     so = {"max_datagram_size": server_mds}
+    if chain != "repo":
+        import ssl
+        co["verify_mode"] = ssl.CERT_NONE        # generated chains are not rooted in the test CA
     if not zero_rtt:
-        return S.Sim(seed, monitors=mons, client_options=co, server_options=so)
+        sim = S.Sim(seed, monitors=mons, client_options=co, server_options=so)
+        if chain != "repo":
+            from . import certs
+            certs.install(sim, chain)
+        return sim
     store, tick = Store(), []
     s0 = S.Sim(f"{seed}/ticket", client_kwargs={"session_ticket_handler": tick.append},
                server_kwargs={"session_ticket_handler": store.add})
@@ -175,7 +207,9 @@ def run_scenario(seed, mode, steps=150, extra=()):
     r0 = random.Random(f"{seed}/cfg")
     cm, sm = r0.choice([(1200, 1200), (1200, 1200), (1350, 1200), (1200, 1500), (1452, 1452)])
     zero = mode == "zero_rtt"
-    sim = make_sim(seed, orc, zero_rtt=zero, client_mds=cm, server_mds=sm, extra=extra)
+    chain = "repo" if zero else r0.choice(["repo", "repo", "small", "medium", "long"])
+    sim = make_sim(seed, orc, zero_rtt=zero, client_mds=cm, server_mds=sm, extra=extra, chain=chain)
+    sim.log.append(f"cert chain {chain}")
     r = sim.r
     sim.api(sim.client, "connect", S.SERVER_ADDR, now=sim.now)
     if zero:
@@ -254,6 +288,34 @@ def directed(seed, kind, extra=()):
         if r.random() < 0.7:
             sim.fire_timer(sim.client)                    # PTO before the answer arrives
         settle(sim, r.choice([30, 300]))
+        return sim, orc
+    if kind == "cert_sizes":
+        # server certificate chains of different sizes x a client that is never heard from again
+        # (silent / spoofed source / only its first Initial, possibly duplicated), over many PTOs
+        from . import certs
+        from .ack_scen import advance
+        sim = make_sim(seed, orc, extra=extra)
+        chain = r.choice(["small", "small", "medium", "long", "repo"])
+        certs.install(sim, chain)
+        sim.connect()
+        first = sim.pending.pop(0)
+        sim.pending.clear()
+        src = r.choice([None, None, JUNK_ADDR, CLIENT_ADDR3])        # None = the client's own address
+        sim.now += 0.001
+        sim.deliver(first, src)
+        sim.pending.clear()                                           # the server's flight is never answered
+        for _ in range(r.choice([6, 10])):
+            x = r.random()
+            if x < 0.2:
+                sim.deliver(first, src)                               # the same Initial again (retransmission / replay)
+                sim.pending.clear()
+            elif x < 0.3:
+                junk(sim, sim.server, src or S.CLIENT_ADDR, r.choice([20, 100, 400]))
+                sim.pending.clear()
+            advance(sim, r.choice([0.3, 1.0, 3.0]))                   # PTOs of the server fire when asked
+            sim.pending.clear()
+        orc.check_ledger(sim, sim.server)
+        sim.log.append(f"cert chain {chain}, source {src}")
         return sim, orc
     if kind == "three_addresses":
         # the client moves to address B, the server challenges B with a large stream queued; the
